@@ -117,6 +117,18 @@ PROPS = {
         "assumptions": COMMON_ASSUME,
         "exhaustive_notes": ["6 localizers x 8 languages x all 11110 paths of depth 1..=4 over 10 components, with and without trailing slash, plus 8 degenerate paths"],
     },
+    "C19": {
+        "quick": [L("checked", 1.0), L("wrapping", 1.0)],
+        "thorough": [L("checked", 1.0), L("wrapping", 1.0), L("miri", 1.0, workers=16)],
+        "digest_rule": "checked_and_wrapping_builds_disagree",
+        "assumptions": COMMON_ASSUME + ["the checked and wrapping lanes run the same seeded cases (same sharding), so per-case output digests are comparable"],
+        "exhaustive_notes": ["all 65536 values of each 16-bit format", "all 65536 RGB5A3 values", "ETC1: all table pairs x flip x mode, every selector at every position for every table, every base/delta pair with sum in 0..=31, all 256 individual nibble pairs, all alpha nibbles x positions", "thorough: all 4096 CI8 sizes 1..=64 x 1..=64"],
+    },
+    "C20": {
+        "quick": [L("checked", 1.0), L("wrapping", 0.5)],
+        "thorough": [L("checked", 1.0), L("wrapping", 0.5), L("asan", 0.25), L("memcheck", 0.005, workers=16), L("miri", 0.0003, workers=16)],
+        "assumptions": COMMON_ASSUME + ["CGFX self-relative offsets are generated non-negative only (real files never point backwards)"],
+    },
     "C02": {
         "quick": [L("checked", 1.0), L("wrapping", 0.25), L("checked", 1.0, mode="det", replicas=8)],
         "thorough": [L("checked", 1.0), L("wrapping", 0.25), L("checked", 1.0, mode="det", replicas=16),
